@@ -901,7 +901,14 @@ def pair_mean(ctx):
     if isinstance(top[0].test, ast.UnaryOp):
         arms = {'polarized': top[0].orelse, 'unpolarized': top[0].body}
 
+    tail = [st for st in f.node.body if st is not top[0] and
+            not (isinstance(st, ast.Expr) and
+                 isinstance(st.value, ast.Constant))]
+
     def run(body):
+        """value stored to self.i for a ray that is not dark: the arm, then
+        the statements after the branch (a masked store i = where(i == 0, 0,
+        i * T) takes its non-dark arm)"""
         defs = {}
 
         def inline(call, ev):
@@ -916,9 +923,17 @@ def pair_mean(ctx):
                     src = defs.get(unparse(arg), unparse(arg))
                     return A('S<' + src + '>')
             return None
-        ev = Ev(inline=inline)
+
+        def choose(test, ev):
+            # the dark-ray mask is False for the ray considered
+            if isinstance(test, ast.Compare) and \
+                    unparse(test.left) == 'self.i' and \
+                    const_of(test.comparators[0]) == 0:
+                return isinstance(test.ops[0], ast.NotEq)
+            return None
+        ev = Ev(inline=inline, choose=choose)
         out = None
-        for st in body:
+        for st in list(body) + tail:
             if isinstance(st, ast.Assign) and isinstance(st.targets[0],
                                                          ast.Name):
                 v = st.value
@@ -936,6 +951,8 @@ def pair_mean(ctx):
                         defs[nm] = fn.split('.')[-1] + '(' + \
                             defs.get(a0, a0) + ')'
                         continue
+                ev.env[nm] = ev.ev(v)
+                continue
             if isinstance(st, ast.Assign) and \
                     unparse(st.targets[0]) == 'self.i':
                 out = ev.ev(st.value)
@@ -1029,4 +1046,89 @@ META['declined'] = [
     for _d in META['declined']]
 
 
-RULES = [pair_mean, pol_update_once, pol_local_frame, coating_media, no_stale, pol_frames, fresnel, rotation_law, retarder, projectors, aoi]
+def pol_entries(ctx):
+    """the intensities of polarized rays come from their polarization
+    matrices; every public trace entry that hands back rays / fills the image
+    record must convert them (update_intensity) after the surface trace -
+    sibling agreement between Optic.trace and Optic.trace_generic - and the
+    conversion keeps dark rays dark (their matrices may be nan)."""
+    from ..paths import paths, annotate, call_attr, callee_names
+    P = ctx.P
+    res = Result('POL-ENTRIES', 'Optic.trace and Optic.trace_generic both '
+                 'apply the polarization state after the surface trace; '
+                 'update_intensity leaves rays of zero intensity at zero')
+    entries = [P.func('Optic.trace'), P.func('Optic.trace_generic')]
+    for f in entries:
+        res.saw(f)
+        ok = True
+        n = 0
+        for p in annotate(P, f, paths(f)):
+            if p.exit == 'raise':
+                continue
+            n += 1
+            tr = [i for i, e in enumerate(p.events) if e.kind == 'call' and
+                  'SurfaceGroup.trace' in callee_names(e)]
+            up = [i for i, e in enumerate(p.events) if e.kind == 'call' and
+                  call_attr(e) == 'update_intensity']
+            pol = any(e.kind == 'branch' and 'PolarizedRays' in
+                      unparse(e.node) and e.extra for e in p.events) \
+                if any(e.kind == 'branch' for e in p.events) else None
+            if not tr:
+                ok = False
+            # on the path that takes the isinstance(rays, PolarizedRays)
+            # branch the update follows the trace
+            if up and not (up[-1] > tr[-1]):
+                ok = False
+        has_call = any(isinstance(c, ast.Call) and isinstance(
+            c.func, ast.Attribute) and c.func.attr == 'update_intensity' and
+            'self.polarization_state' in unparse(c)
+            for c in ast.walk(f.node))
+        guarded = any(isinstance(n_, ast.If) and
+                      'PolarizedRays' in unparse(n_.test) and
+                      any('update_intensity' in unparse(b) for b in n_.body)
+                      for n_ in ast.walk(f.node))
+        if ok and has_call and guarded:
+            res.ok(f'{f.qual}: polarized rays get update_intensity('
+                   f'polarization_state) after the surface trace')
+        else:
+            res.fail(ctx.finding(
+                'POL-ENTRIES', f, f.node,
+                f'{f.qual} does not convert the polarization matrices of '
+                f'polarized rays into intensities: with Fresnel coatings it '
+                f'returns intensity 1.000 where Optic.trace returns 0.9216 '
+                f'for the same ray',
+                construct='polarization state not applied'))
+    ui = P.func('PolarizedRays.update_intensity')
+    res.saw(ui)
+    stores = [st for st in ast.walk(ui.node) if isinstance(st, ast.Assign) and
+              unparse(st.targets[0]) == 'self.i']
+    if not stores:
+        raise AnalysisError('update_intensity: no store to self.i')
+    bad = None
+    for st in stores:
+        v = st.value
+        masked = isinstance(v, ast.Call) and unparse(v.func) == 'np.where' \
+            and len(v.args) == 3 and isinstance(v.args[0], ast.Compare) and \
+            unparse(v.args[0].left) == 'self.i' and \
+            const_of(v.args[0].comparators[0]) == 0 and (
+                (isinstance(v.args[0].ops[0], ast.Eq) and
+                 const_of(v.args[1]) == 0) or
+                (isinstance(v.args[0].ops[0], (ast.NotEq, ast.Gt)) and
+                 const_of(v.args[2]) == 0))
+        if not masked:
+            bad = st
+    if bad is None:
+        res.ok('update_intensity: i = where(i == 0, 0, i * T)')
+    else:
+        res.fail(ctx.finding(
+            'POL-ENTRIES', ui, bad,
+            'update_intensity multiplies the intensity of every ray by the '
+            'polarization transmittance: for a ray that missed a surface or '
+            'was totally reflected the matrix is nan and 0 * nan = nan '
+            '(ball-like singlet: [nan, 1, nan] instead of [0, 1, 0]; '
+            'UVReflectingMicroscope: 52 nan rays)',
+            construct='dark rays become nan'))
+    return res
+
+
+RULES = [pol_entries, pair_mean, pol_update_once, pol_local_frame, coating_media, no_stale, pol_frames, fresnel, rotation_law, retarder, projectors, aoi]
